@@ -1,6 +1,6 @@
 (* Props/C15.v — malformed input is reported with the right line number. *)
 From Coq Require Import ZArith List Bool Arith String.
-From BNP Require Import Base.Prims Model.C01 Model.C15 Proofs.C01_delim Proofs.C15.
+From BNP Require Import Base.Prims Model.C01 Model.C15 Proofs.C01_delim Proofs.C01_lines Proofs.C15 Proofs.C15_oneline.
 Import ListNotations.
 
 (* T1 (delimited formats, any column typing): for every file, every chunk size >= 1 and both reader modes,
@@ -23,6 +23,49 @@ Theorem C15_delim_never_a_table :
     spec_line tys (norm_text file) = Some l -> report tys 0 chunks = Some l.
 Proof. intros tys m k file chunks dropped app lr l Hk Hrun Hs. rewrite <- Hs. exact (delim_line_exact tys m k file chunks dropped app lr Hk Hrun). Qed.
 Print Assumptions C15_delim_never_a_table.
+
+(* ---------- record-marker formats: FASTQ (OneLine 4 64 true) and two-line FASTA (OneLine 2 62 false) ---------- *)
+(* T3: a completed read means there was no violation: every delivered buffer passed the marker / '+' validation
+   and the buffers cover the text — for every chunk size and both reader modes. *)
+Theorem C15_oneline_never_a_table :
+  forall n hdr plus m k file chunks dropped app lines,
+    (1 <= n)%nat -> (plus = true -> (3 <= n)%nat) -> hdr <> 10%Z -> (1 <= k)%nat -> whole n (norm_text file) ->
+    read_chunks true (OneLine n hdr plus) m k file = Done chunks dropped app lines ->
+    spec_oneline (OneLine n hdr plus) (norm_text file) = None.
+Proof. exact oneline_never_a_table. Qed.
+Print Assumptions C15_oneline_never_a_table.
+
+(* T4: whatever the chunk size and mode, a reported line really is an offending line of the whole text
+   (global line = lines delivered earlier + line inside the buffer being validated). *)
+Theorem C15_oneline_reported_line_offends :
+  forall n hdr plus m k file l chunks,
+    (1 <= n)%nat -> (plus = true -> (3 <= n)%nat) -> hdr <> 0%Z -> (1 <= k)%nat ->
+    read_chunks true (OneLine n hdr plus) m k file = FormatError l chunks ->
+    line_is_bad n hdr plus (norm_text file) l.
+Proof. exact oneline_reported_line_offends. Qed.
+Print Assumptions C15_oneline_reported_line_offends.
+
+(* T5: with a single violation in the file (the property's quantifier) the reported line is THE line of the
+   offending record, hence identical for every chunk size, both modes. *)
+Theorem C15_oneline_line_exact :
+  forall n hdr plus m k file l chunks,
+    (1 <= n)%nat -> (plus = true -> (3 <= n)%nat) -> hdr <> 0%Z -> (1 <= k)%nat ->
+    whole n (norm_text file) ->
+    (forall i j, line_is_bad n hdr plus (norm_text file) i -> line_is_bad n hdr plus (norm_text file) j -> i = j) ->
+    read_chunks true (OneLine n hdr plus) m k file = FormatError l chunks ->
+    spec_oneline (OneLine n hdr plus) (norm_text file) = Some l.
+Proof. exact oneline_line_exact. Qed.
+Print Assumptions C15_oneline_line_exact.
+
+Theorem C15_oneline_line_chunk_independent :
+  forall n hdr plus m1 k1 m2 k2 file l1 chunks1 l2 chunks2,
+    (1 <= n)%nat -> (plus = true -> (3 <= n)%nat) -> hdr <> 0%Z -> (1 <= k1)%nat -> (1 <= k2)%nat ->
+    (forall i j, line_is_bad n hdr plus (norm_text file) i -> line_is_bad n hdr plus (norm_text file) j -> i = j) ->
+    read_chunks true (OneLine n hdr plus) m1 k1 file = FormatError l1 chunks1 ->
+    read_chunks true (OneLine n hdr plus) m2 k2 file = FormatError l2 chunks2 ->
+    l1 = l2.
+Proof. exact oneline_line_chunk_independent. Qed.
+Print Assumptions C15_oneline_line_chunk_independent.
 
 (* non-vacuity: a 4-line BED whose third line (line 2) has a non-numeric start, chunk size 7, gzip mode:
    the model reader completes and the report is line 2 *)
